@@ -417,7 +417,7 @@ func c16Run(r *simkit.Run) {
 
 	r.Sched(simkit.SchedOpts{MaxSteps: 2000000, MaxSim: time.Hour, Stick: r.DrawStick()})
 
-	if r.Live() > 0 {
+	if r.Unfinished() {
 		r.Fail("liveness", "import", "the item imports did not finish")
 	}
 
